@@ -285,6 +285,7 @@ func RunC10(t *testing.T, tape *Tape) *Outcome {
 				case "cancel":
 					ctx, cancel := context.WithCancel(context.Background())
 					src := ""
+					target := -1 // the definition a calls-definition step really calls
 					switch s.CK {
 					case xBusy:
 						src = "for { host.Tick(1) }"
@@ -297,13 +298,16 @@ func RunC10(t *testing.T, tape *Tape) *Outcome {
 						src = "go func() { for { host.Tick(3) } }(); go func() { c2 := make(chan int); c2 <- 1 }(); select {}"
 					case xCallsDef:
 						callee := d.callee(s.Def)
+						target = s.Def
 						if d.kind == dCounterClosure || d.kind == dGlobalCounter || d.kind == dGlobalMap {
 							// a call that is cut short must not be counted by the model: use
 							// a definition without state for this kind of step
 							callee = ""
+							target = -1
 							for j2, d2 := range defs {
 								if d2.kind != dCounterClosure && d2.kind != dGlobalCounter && d2.kind != dGlobalMap {
 									callee = d2.callee(j2)
+									target = j2
 									break
 								}
 							}
@@ -330,18 +334,19 @@ func RunC10(t *testing.T, tape *Tape) *Outcome {
 							}
 						}
 					}
-					if s.CK == xCallsDef && d.kind == dLockedFunc {
+					if s.CK == xCallsDef && target >= 0 && defs[target].kind == dLockedFunc {
+						d := defs[target]
 						// A cancellation between Lock and the registration of the deferred
 						// Unlock leaves the mutex locked for good: that is inherent to
 						// stopping after the operation in flight, not what is judged here.
 						// If the last marker of L is the one before Lock, L is not used again.
 						last := 0
 						for _, e := range sinkC10.Events() {
-							if e.Kind == host.KTick && (e.Tag == 6100+s.Def || e.Tag == 6110+s.Def) {
+							if e.Kind == host.KTick && (e.Tag == 6100+target || e.Tag == 6110+target) {
 								last = e.Tag
 							}
 						}
-						if last == 6100+s.Def {
+						if last == 6100+target {
 							d.desync = true
 							lockWindows++
 						}
